@@ -74,6 +74,8 @@ pub struct ZooCtx<'a> {
     pub hist_reader: Option<UperReader<SpyBits<'a>>>,
     pub hist_log: Vec<Value>,
     pub hist_cursor: usize,
+    /// C19: outcome table lines
+    pub table: Vec<String>,
 }
 
 impl<'a> ZooCtx<'a> {
@@ -614,12 +616,15 @@ fn c03_single<T: ZooType>(ctx: &mut ZooCtx, u: &Universe, e: &TypeEntry) {
         match &comp.ty {
             Type::Boolean => 1,
             Type::Integer { c: Some(IntC { lo: Bound::Lit(a), hi: Bound::Lit(b), .. }), .. } => vgen::per::width_for_range((*b - *a) as u128 + 1) as usize,
+            Type::Sequence(_) => 4, // the nested plain SEQUENCE { x INTEGER (0..7), y BOOLEAN } of the shapes family
             _ => 0,
         }
     };
     let value_of = |i: usize, comp: &Comp, variant: bool| -> Val {
         match (&comp.ty, &comp.presence) {
             (Type::Boolean, _) => Val::Bool(true),
+            (Type::Null, _) => Val::Null,
+            (Type::Sequence(_), _) => Val::Seq(vec![Some(Val::Int((i as i128 + 5) % 8)), Some(Val::Bool(i % 2 == 0))]),
             (_, Presence::Default(_)) => Val::Int(if variant { 200 + i as i128 } else { 5 }),
             _ => Val::Int((i as i128 + 3) % 8),
         }
@@ -1189,6 +1194,523 @@ pub fn c06_adversarial(rep: &mut Report) {
 }
 
 // =============================================================================================
+// fault inputs (C04, C19): random byte strings and corrupted valid encodings
+
+#[derive(Clone, Debug)]
+pub struct FaultInput {
+    pub bytes: Vec<u8>,
+    pub bit_len: usize,
+    pub kind: String,
+}
+
+/// valid encodings of boundary-biased values of the type (real writer; R-PER where the writer refuses)
+fn base_encodings<T: ZooType>(ctx: &mut ZooCtx, u: &Universe, e: &TypeEntry, n: u64) -> Vec<(Vec<u8>, usize)> {
+    let mut out = Vec::new();
+    for k in 0..n {
+        let v = gen_value(ctx, u, e, k);
+        let mut done = false;
+        if let Ok(Ok(t)) = guarded(|| Injector::inject::<T>(u, ctx.set_order, e.module, &e.def, &v)) {
+            let mut w = UperWriter::default();
+            if let Ok(Ok(())) = guarded(|| w.write(&t)) {
+                out.push((w.byte_content().to_vec(), w.bit_len()));
+                done = true;
+            }
+        }
+        if !done {
+            if let Ok((enc, _)) = vgen::per::encode(u, e.module, &e.def, &v) {
+                let n = enc.bits.len();
+                out.push((enc.to_bytes(), n));
+            }
+        }
+    }
+    out
+}
+
+/// types without a schema model (corpus): encodings are found by decoding random bytes and re-encoding what decoded
+fn base_encodings_schemaless<T: ZooType>(seed: u64, e: &TypeEntry, n: u64) -> Vec<(Vec<u8>, usize)> {
+    let mut out = Vec::new();
+    for k in 0..n * 20 {
+        if out.len() as u64 >= n {
+            break;
+        }
+        let mut rng = Rng::derive(seed, &["schemaless-base"], (e.id as u64) << 24 | k);
+        let len = rng.range(1, 48) as usize;
+        let mut bytes = rng.bytes(len);
+        if k % 3 == 0 {
+            // mostly-zero inputs select small lengths and first alternatives
+            for b in bytes.iter_mut() {
+                if rng.chance(3, 4) {
+                    *b = 0;
+                }
+            }
+        }
+        if let Ok(Ok(t)) = guarded(|| UperReader::from((&bytes[..], bytes.len() * 8)).read::<T>()) {
+            let mut w = UperWriter::default();
+            if let Ok(Ok(())) = guarded(|| w.write(&t)) {
+                out.push((w.byte_content().to_vec(), w.bit_len()));
+            }
+        }
+    }
+    out
+}
+
+const LENGTH_PATTERNS: &[&[u8]] = &[&[0x7F], &[0xBF, 0xFF], &[0xC4], &[0xFF], &[0xC1], &[0x80, 0x00], &[0x80], &[0xC0], &[0xFF, 0xFF, 0xFF, 0xFF], &[0x00]];
+
+pub fn fault_input(rng: &mut Rng, bases: &[(Vec<u8>, usize)]) -> FaultInput {
+    if bases.is_empty() || rng.chance(1, 4) {
+        // random byte string with every declared-length class
+        let len = rng.range(0, 64) as usize;
+        let mut bytes = rng.bytes(len);
+        match rng.below(4) {
+            0 => {
+                for b in bytes.iter_mut() {
+                    if rng.chance(2, 3) {
+                        *b = 0
+                    }
+                }
+            }
+            1 => {
+                for b in bytes.iter_mut() {
+                    if rng.chance(2, 3) {
+                        *b = 0xFF
+                    }
+                }
+            }
+            _ => {}
+        }
+        let total = len * 8;
+        let bit_len = match rng.below(7) {
+            0 => 0,
+            1 => 1.min(total),
+            2 => 7.min(total),
+            3 => 8.min(total),
+            4 => total.saturating_sub(1),
+            5 => total,
+            _ => rng.range(0, total as u64) as usize,
+        };
+        return FaultInput { bytes, bit_len, kind: "random".into() };
+    }
+    let (mut bytes, mut bit_len) = rng.pick(bases).clone();
+    let nf = 1 + rng.below(3);
+    let mut kinds: Vec<&'static str> = Vec::new();
+    for _ in 0..nf {
+        match rng.below(9) {
+            0 => {
+                if bit_len > 0 {
+                    bit_len = rng.below(bit_len as u64) as usize;
+                    if rng.bool() {
+                        bytes.truncate((bit_len + 7) / 8);
+                    }
+                }
+                kinds.push("truncate");
+            }
+            1 => {
+                if bit_len > 0 {
+                    let b = rng.below(bit_len as u64) as usize;
+                    bytes[b / 8] ^= 0x80 >> (b % 8);
+                }
+                kinds.push("flip");
+            }
+            2 => {
+                let pos = rng.range(0, bytes.len() as u64) as usize;
+                let val = *rng.pick(&[0x00u8, 0xFF, 0x7F, 0x80, 0xBF, 0xC4, 0x01]);
+                bytes.insert(pos, val);
+                bit_len += 8;
+                kinds.push("insert");
+            }
+            3 => {
+                if !bytes.is_empty() {
+                    let pos = rng.below(bytes.len() as u64) as usize;
+                    bytes.remove(pos);
+                    bit_len = bit_len.saturating_sub(8);
+                }
+                kinds.push("delete");
+            }
+            4 => {
+                if !bytes.is_empty() {
+                    let pat = *rng.pick(LENGTH_PATTERNS);
+                    // early positions are where the outer length determinants live
+                    let pos = if rng.bool() { rng.below(bytes.len().min(4) as u64) as usize } else { rng.below(bytes.len() as u64) as usize };
+                    for (i, b) in pat.iter().enumerate() {
+                        if pos + i < bytes.len() {
+                            bytes[pos + i] = *b;
+                        }
+                    }
+                }
+                kinds.push("length-pattern");
+            }
+            5 => {
+                // garbage behind the declared end: an over-read is physically possible
+                let n = rng.range(1, 16) as usize;
+                let fill = *rng.pick(&[0xFFu8, 0x00, 0xAA]);
+                bytes.extend(std::iter::repeat(fill).take(n));
+                kinds.push("garbage-behind-declared-end");
+            }
+            6 => {
+                if bit_len > 0 {
+                    let at = rng.below(bit_len as u64) as usize;
+                    let n = rng.range(1, 24) as usize;
+                    let ones = rng.bool();
+                    for b in at..(at + n).min(bytes.len() * 8) {
+                        if ones {
+                            bytes[b / 8] |= 0x80 >> (b % 8);
+                        } else {
+                            bytes[b / 8] &= !(0x80 >> (b % 8));
+                        }
+                    }
+                }
+                kinds.push("unaligned-run");
+            }
+            7 => {
+                if bytes.len() >= 2 {
+                    let a = rng.below(bytes.len() as u64) as usize;
+                    let b = rng.range(a as u64, bytes.len() as u64) as usize;
+                    let piece: Vec<u8> = bytes[a..b].to_vec();
+                    let pos = rng.range(0, bytes.len() as u64) as usize;
+                    bit_len += piece.len() * 8;
+                    for (i, x) in piece.into_iter().enumerate() {
+                        bytes.insert(pos + i, x);
+                    }
+                }
+                kinds.push("splice");
+            }
+            _ => {
+                // shift the whole message by 1..7 bits (what a wrong preamble width does)
+                let k = rng.range(1, 7) as usize;
+                let bits = bytes_to_bools(&bytes, bytes.len() * 8);
+                let mut shifted = vec![rng.bool(); k];
+                shifted.extend(bits);
+                bytes = vgen::bits::bools_to_bytes(&shifted);
+                bit_len = (bit_len + k).min(bytes.len() * 8);
+                kinds.push("bit-shift");
+            }
+        }
+    }
+    if bit_len > bytes.len() * 8 {
+        bit_len = bytes.len() * 8;
+    }
+    kinds.sort();
+    kinds.dedup();
+    FaultInput { bytes, bit_len, kind: kinds.join("+") }
+}
+
+pub const ALLOC_BASE: usize = 64 << 20;
+pub const ALLOC_PER_BYTE: usize = 4096;
+
+fn c04_uper_case<T: ZooType>(rep: &mut Report, e: &TypeEntry, inp: &FaultInput) {
+    rep.eval();
+    let w_ = |extra: Value| json!({"type": e.def, "family": e.family, "reader": "uper", "fault": inp.kind, "input_hex": hex(&inp.bytes), "bit_len": inp.bit_len, "detail": extra});
+    let mut reader = UperReader::from(SpyBits::new(&inp.bytes, inp.bit_len));
+    crate::alloc::arm();
+    let res = guarded(|| reader.read::<T>().map(|t| drop(t)));
+    let st = crate::alloc::disarm();
+    let limit = ALLOC_BASE + ALLOC_PER_BYTE * inp.bytes.len();
+    if st.max_request > limit || st.peak_live > limit {
+        rep.violation("c04:uper:allocation-not-bounded-by-input", w_(json!({"max_request": st.max_request, "peak_live": st.peak_live, "limit": limit})));
+    }
+    rep.hist("alloc-peak", &format!("<=2^{}", (st.peak_live.max(1) as f64).log2().ceil() as u32));
+    // accessors stay callable after every outcome
+    let acc = guarded(|| reader.bits_remaining());
+    let bits = reader.into_bits();
+    use asn1rs::rw::ScopedBitRead;
+    let acc2 = guarded(|| (bits.pos(), bits.len(), bits.remaining()));
+    match (&acc, &acc2) {
+        (Err(p), _) | (_, Err(p)) => rep.violation(&format!("c04:uper:accessor-panics-after-read:{}", p.signature()), w_(json!({"read_result_ok": matches!(res, Ok(Ok(())))}))),
+        (Ok(rem), Ok((pos, len, rem2))) => {
+            if rem != rem2 || (pos <= len && pos + rem != *len) {
+                rep.violation("c04:uper:accessors-inconsistent", w_(json!({"pos": pos, "len": len, "remaining": rem})));
+            }
+        }
+    }
+    match res {
+        Err(p) => {
+            rep.violation(&format!("c04:uper:panic:{}", p.signature()), w_(json!({"message": p.msg})));
+            rep.hist("outcomes", "panic");
+        }
+        Ok(Ok(())) => {
+            rep.hist("outcomes", "Ok");
+            let pos = bits.pos();
+            if bits.overreads > 0 || pos > inp.bit_len || bits.max_touched > inp.bit_len {
+                rep.violation("c04:uper:ok-after-reading-beyond-the-declared-length", w_(json!({"pos": pos, "max_touched": bits.max_touched, "overreads": bits.overreads})));
+            }
+            rep.distinct(hash_str(&e.def) ^ (pos as u64) << 20 ^ 0xC04);
+        }
+        Ok(Err(err)) => {
+            let k = kind_name(&err);
+            rep.hist("outcomes", &format!("Err:{}", k));
+            rep.distinct(hash_str(&e.def) ^ hash_str(&k) ^ (bits.pos() as u64) << 20);
+        }
+    }
+    rep.hist("faults", &inp.kind.split('+').next().unwrap_or("").to_string());
+}
+
+fn c04_proto_case<T: ZooType>(rep: &mut Report, e: &TypeEntry, inp: &FaultInput) {
+    use asn1rs::rw::ProtobufReader;
+    rep.eval();
+    let w_ = |extra: Value| json!({"type": e.def, "family": e.family, "reader": "protobuf", "fault": inp.kind, "input_hex": hex(&inp.bytes), "detail": extra});
+    crate::alloc::arm();
+    let res = guarded(|| {
+        let mut reader = ProtobufReader::from(&inp.bytes[..]);
+        reader.read::<T>().map(|t| drop(t)).map_err(|e| format!("{:?}", e))
+    });
+    let st = crate::alloc::disarm();
+    let limit = ALLOC_BASE + ALLOC_PER_BYTE * inp.bytes.len();
+    // the errors of this reader capture resolved backtraces, whose symboliser fills a process-wide cache: judged are
+    // the largest single request and the peak of what was released again before the call returned
+    if st.max_request > limit || st.transient_peak() > limit {
+        rep.violation("c04:protobuf:allocation-not-bounded-by-input", w_(json!({"max_request": st.max_request, "peak_live": st.peak_live, "live_at_end": st.live_at_end, "limit": limit})));
+    }
+    match res {
+        Err(p) => {
+            rep.violation(&format!("c04:protobuf:panic:{}", p.signature()), w_(json!({"message": p.msg})));
+            rep.hist("outcomes-protobuf", "panic");
+        }
+        Ok(Ok(())) => rep.hist("outcomes-protobuf", "Ok"),
+        Ok(Err(err)) => {
+            let k: String = err.split(|c: char| !c.is_alphanumeric()).next().unwrap_or("").to_string();
+            rep.hist("outcomes-protobuf", &format!("Err:{}", k));
+        }
+    }
+}
+
+fn proto_bases<T: ZooType>(uper_bases: &[(Vec<u8>, usize)]) -> Vec<(Vec<u8>, usize)> {
+    use asn1rs::rw::ProtobufWriter;
+    let mut out = Vec::new();
+    for (bytes, bit_len) in uper_bases {
+        if let Ok(Ok(t)) = guarded(|| UperReader::from((&bytes[..], *bit_len)).read::<T>()) {
+            let mut w = ProtobufWriter::default();
+            if let Ok(Ok(())) = guarded(|| w.write(&t)) {
+                let b = w.into_bytes_vec();
+                let n = b.len() * 8;
+                out.push((b, n));
+            }
+        }
+    }
+    out
+}
+
+fn c04_inputs_per_type(ctx: &ZooCtx) -> u64 {
+    if ctx.tier == "quick" {
+        160
+    } else {
+        6000
+    }
+}
+
+/// asn1rs's protobuf and DER errors capture a resolved backtrace; the first capture parses the debug information of
+/// the whole binary (hundreds of MB, kept in a process-wide cache). Do that once, before the allocator is armed
+/// and before children are forked, so that the allocation monitor measures the decoder and not the symboliser.
+pub fn prewarm_backtrace_cache() {
+    static ONCE: std::sync::Once = std::sync::Once::new();
+    ONCE.call_once(|| {
+        let _ = asn1rs::protocol::protobuf::Error::invalid_format(0);
+    });
+}
+
+fn c04_run<T: ZooType>(ctx: &mut ZooCtx, e: &TypeEntry, bases: Vec<(Vec<u8>, usize)>) {
+    prewarm_backtrace_cache();
+    let pbases = proto_bases::<T>(&bases);
+    ctx.rep.hist("bases", if bases.is_empty() { "uper:none" } else { "uper:some" });
+    ctx.rep.hist("bases", if pbases.is_empty() { "protobuf:none" } else { "protobuf:some" });
+    let n = c04_inputs_per_type(ctx);
+    let nproto = n / 4;
+    let seed = ctx.seed;
+    let input_for = |i: u64| -> (bool, FaultInput) {
+        let mut rng = Rng::derive(seed, &["C04", "input"], (e.id as u64) << 28 | i);
+        if i < n {
+            (false, fault_input(&mut rng, &bases))
+        } else {
+            let mut inp = fault_input(&mut rng, &pbases);
+            // the protobuf reader takes whole bytes
+            inp.bytes.truncate((inp.bit_len + 7) / 8);
+            (true, inp)
+        }
+    };
+    let cfg = crate::sandbox::SandboxCfg { batch: 4000, batch_timeout: std::time::Duration::from_secs(240), case_timeout: std::time::Duration::from_secs(20), ..Default::default() };
+    let mut rep = std::mem::replace(&mut ctx.rep, Report::new("", "", 0, 0, ""));
+    crate::sandbox::run_batches(
+        &mut rep,
+        n + nproto,
+        &cfg,
+        |r, i| {
+            let (proto, inp) = input_for(i);
+            if proto {
+                c04_proto_case::<T>(r, e, &inp)
+            } else {
+                c04_uper_case::<T>(r, e, &inp)
+            }
+        },
+        |i| {
+            let (proto, inp) = input_for(i);
+            (
+                format!("c04:{}", if proto { "protobuf" } else { "uper" }),
+                json!({"type": e.def, "family": e.family, "reader": if proto { "protobuf" } else { "uper" }, "fault": inp.kind, "input_hex": hex(&inp.bytes), "bit_len": inp.bit_len}),
+            )
+        },
+    );
+    ctx.rep = rep;
+}
+
+fn c04_single<T: ZooType>(ctx: &mut ZooCtx, u: &Universe, e: &TypeEntry) {
+    let nb = if ctx.tier == "quick" { 6 } else { 40 };
+    let bases = base_encodings::<T>(ctx, u, e, nb);
+    c04_run::<T>(ctx, e, bases);
+}
+
+fn c04_schemaless<T: ZooType>(ctx: &mut ZooCtx, e: &TypeEntry) {
+    let nb = if ctx.tier == "quick" { 6 } else { 40 };
+    let bases = base_encodings_schemaless::<T>(ctx.seed, e, nb);
+    c04_run::<T>(ctx, e, bases);
+}
+
+/// DER reader: the primitives it implements, on every input of <= 2 octets and random longer ones
+pub fn c04_der(rep: &mut Report, seed: u64, tier: &str) {
+    prewarm_backtrace_cache();
+    use asn1rs::descriptor::{boolean, common, numbers, ReadableType};
+    use asn1rs::protocol::basic::DER;
+    struct C;
+    impl common::Constraint for C {
+        const TAG: asn1rs::model::asn::Tag = asn1rs::model::asn::Tag::DEFAULT_INTEGER;
+    }
+    impl numbers::Constraint<i64> for C {}
+    impl numbers::Constraint<u64> for C {}
+    impl numbers::Constraint<u8> for C {}
+    struct B;
+    impl common::Constraint for B {
+        const TAG: asn1rs::model::asn::Tag = asn1rs::model::asn::Tag::DEFAULT_BOOLEAN;
+    }
+    impl boolean::Constraint for B {}
+    let mut run = |bytes: &[u8], rep: &mut Report| {
+        rep.eval();
+        for (name, r) in [
+            ("i64", guarded(|| numbers::Integer::<i64, C>::read_value(&mut DER::reader(bytes)).map(|_| ()).map_err(|e| format!("{:?}", e)))),
+            ("u64", guarded(|| numbers::Integer::<u64, C>::read_value(&mut DER::reader(bytes)).map(|_| ()).map_err(|e| format!("{:?}", e)))),
+            ("u8", guarded(|| numbers::Integer::<u8, C>::read_value(&mut DER::reader(bytes)).map(|_| ()).map_err(|e| format!("{:?}", e)))),
+            ("boolean", guarded(|| boolean::Boolean::<B>::read_value(&mut DER::reader(bytes)).map(|_| ()).map_err(|e| format!("{:?}", e)))),
+        ] {
+            match r {
+                Err(p) => rep.violation(&format!("c04:der:{}:panic:{}", name, p.signature()), json!({"reader": "der", "input_hex": hex(bytes)})),
+                Ok(Ok(())) => rep.hist("outcomes-der", "Ok"),
+                Ok(Err(_)) => rep.hist("outcomes-der", "Err"),
+            }
+        }
+        {
+            use asn1rs::protocol::basic::BasicRead;
+            let raw = guarded(|| {
+                let mut s = bytes;
+                let _ = s.read_identifier();
+                let l = s.read_length();
+                let _ = s.read_integer_i64(l.as_ref().map(|l| *l as u32).unwrap_or(3));
+                let _ = s.read_integer_u64(9);
+                let _ = s.read_boolean();
+            });
+            if let Err(p) = raw {
+                rep.violation(&format!("c04:der:raw:panic:{}", p.signature()), json!({"reader": "der", "input_hex": hex(bytes)}));
+            }
+        }
+    };
+    run(&[], rep);
+    for a in 0..=255u8 {
+        run(&[a], rep);
+        for b in 0..=255u8 {
+            run(&[a, b], rep);
+        }
+    }
+    let n = if tier == "quick" { 20_000 } else { 1_000_000 };
+    for i in 0..n {
+        let mut rng = Rng::derive(seed, &["C04", "der"], i);
+        let len = rng.range(3, 14) as usize;
+        let mut bytes = rng.bytes(len);
+        // valid identifier + a length octet near the interesting values
+        if rng.chance(2, 3) {
+            bytes[0] = *rng.pick(&[0x02u8, 0x01, 0x0A, 0x82]);
+            bytes[1] = *rng.pick(&[0x00u8, 0x01, 0x02, 0x07, 0x08, 0x09, 0x7F, 0x80, 0x81, 0x82, 0x84, 0x88, 0x89, 0xFF]);
+        }
+        run(&bytes, rep);
+    }
+}
+
+// =============================================================================================
+// C19: outcome table of the fault inputs (compared between the two feature builds by the orchestrator)
+
+/// run one input through the reader of this build and append its outcome line; returns the decoded value
+fn c19_record<T: ZooType>(ctx: &mut ZooCtx, e: &TypeEntry, i: u64, inp: &FaultInput) -> Option<T> {
+    ctx.rep.eval();
+    let mut reader = UperReader::from((&inp.bytes[..], inp.bit_len));
+    let res = guarded(|| reader.read::<T>());
+    let consumed = guarded(|| inp.bit_len as i64 - reader.bits_remaining() as i64).unwrap_or(i64::MIN);
+    let mut value = None;
+    let outcome = match res {
+        Err(p) => format!("panic:{}", p.signature()),
+        Ok(Ok(t)) => {
+            ctx.rep.hist("outcomes", "Ok");
+            let o = format!("Ok:{:016x}", hash_str(&format!("{:?}", t)));
+            value = Some(t);
+            o
+        }
+        Ok(Err(err)) => {
+            ctx.rep.hist("outcomes", &format!("Err:{}", kind_name(&err)));
+            format!("Err:{}", format!("{:?}", err.kind()).replace(' ', "").chars().take(160).collect::<String>())
+        }
+    };
+    let outcome: String = outcome.chars().map(|c| if c.is_whitespace() { '_' } else { c }).collect();
+    ctx.rep.distinct(hash_str(&outcome) ^ hash_str(&e.def) ^ (consumed as u64) << 24);
+    let h = hex(&inp.bytes);
+    ctx.table.push(format!("{} {} {} {} {} {} {}", e.id, e.def, i, inp.bit_len, if h.is_empty() { "-".to_string() } else if h.len() > 600 { format!("#{:016x}", hash_str(&h)) } else { h }, consumed, outcome));
+    value
+}
+
+fn c19_table<T: ZooType>(ctx: &mut ZooCtx, e: &TypeEntry, bases: Vec<(Vec<u8>, usize)>) {
+    let n = if ctx.tier == "quick" { 120 } else { 3000 };
+    for i in 0..n {
+        let mut rng = Rng::derive(ctx.seed, &["C19", "input"], (e.id as u64) << 28 | i);
+        // every fourth input is a valid encoding
+        let inp = if i % 4 == 0 && !bases.is_empty() {
+            let (b, l) = rng.pick(&bases).clone();
+            FaultInput { bytes: b, bit_len: l, kind: "valid".into() }
+        } else {
+            fault_input(&mut rng, &bases)
+        };
+        let _ = c19_record::<T>(ctx, e, i, &inp);
+    }
+}
+
+fn c19_single<T: ZooType>(ctx: &mut ZooCtx, u: &Universe, e: &TypeEntry) {
+    let bases = base_encodings::<T>(ctx, u, e, 6);
+    c19_table::<T>(ctx, e, bases);
+}
+
+/// corpus types have no schema model: valid encodings are found by decoding random bytes and re-encoding what
+/// decoded. The probes themselves are table lines, so a decoder difference shows as a differing line before the
+/// inputs derived from it can diverge.
+fn c19_schemaless<T: ZooType>(ctx: &mut ZooCtx, e: &TypeEntry) {
+    let mut bases = Vec::new();
+    for k in 0..120u64 {
+        if bases.len() >= 6 {
+            break;
+        }
+        let mut rng = Rng::derive(ctx.seed, &["schemaless-base"], (e.id as u64) << 24 | k);
+        let len = rng.range(1, 48) as usize;
+        let mut bytes = rng.bytes(len);
+        if k % 3 == 0 {
+            for b in bytes.iter_mut() {
+                if rng.chance(3, 4) {
+                    *b = 0;
+                }
+            }
+        }
+        let inp = FaultInput { bit_len: bytes.len() * 8, bytes, kind: "probe".into() };
+        if let Some(t) = c19_record::<T>(ctx, e, 1_000_000 + k, &inp) {
+            let mut w = UperWriter::default();
+            if let Ok(Ok(())) = guarded(|| w.write(&t)) {
+                bases.push((w.byte_content().to_vec(), w.bit_len()));
+            }
+        }
+    }
+    c19_table::<T>(ctx, e, bases);
+}
+
+// =============================================================================================
 // dispatch
 
 pub fn run<T: ZooType>(ctx: &mut ZooCtx, e: &TypeEntry) {
@@ -1207,6 +1729,8 @@ pub fn run<T: ZooType>(ctx: &mut ZooCtx, e: &TypeEntry) {
         ("C02", Mode::Single) => c02_single::<T>(ctx, u, e),
         ("C03", Mode::Single) => c03_single::<T>(ctx, u, e),
         ("C06", Mode::Single) => c06_single::<T>(ctx, u, e),
+        ("C04", Mode::Single) => c04_single::<T>(ctx, u, e),
+        ("C19", Mode::Single) => c19_single::<T>(ctx, u, e),
         _ => {}
     }
 }
@@ -1218,7 +1742,13 @@ impl<'a> ZooCtx<'a> {
     }
 }
 
-pub fn run_schemaless<T: ZooType>(_ctx: &mut ZooCtx, _e: &TypeEntry) {}
+pub fn run_schemaless<T: ZooType>(ctx: &mut ZooCtx, e: &TypeEntry) {
+    match ctx.prop.as_str() {
+        "C04" => c04_schemaless::<T>(ctx, e),
+        "C19" => c19_schemaless::<T>(ctx, e),
+        _ => {}
+    }
+}
 
 
 pub fn rule_text(prop: &str) -> String {
@@ -1228,6 +1758,8 @@ pub fn rule_text(prop: &str) -> String {
         "C03" => "bounded-exhaustive, seed-independent: every SEQUENCE/SET shape with n <= N components (N = 3 quick, 5 thorough) x {mandatory, OPTIONAL, DEFAULT}^n x extension marker {none, after component i} x all 2^k presence patterns (DEFAULT: default and non-default value); preamble derived from the property statement and compared bit by bit (extension bit, one presence bit per OPTIONAL/DEFAULT root component in order), total length, whole encoding vs R-PER, decode of own bits, decode of the reference bits of every pattern (incl. first addition absent / later present); refusal only as ExtensionFieldsInconsistent for exactly that pattern. distinct = distinct (shape, pattern)".to_string(),
         "C05" => "schema pairs (V1, V2 = V1 + k extension additions / alternatives / enumeration items; additions of 1, 2, 63, 64, 127, 128, 129, 300 octets, OPTIONAL and mandatory, nested extensible), also nested as list element and non-last component; values of either version written with one version followed by a sentinel, read with the other: abstract value == R-PER decoder of the other version, reader position == message end, sentinel intact; unknown CHOICE/ENUMERATED extensions may fail but never yield a value. distinct = distinct (direction, pair, encoding)".to_string(),
         "C06" => "every constrained leaf of generated values (zoo types incl. a dedicated edge family: single-value ranges, negative ranges, fixed/extensible/range sizes of every string and list kind): one violation at a time - INTEGER lb-1, ub+1, +-2^31; SIZE lb-1, 0, ub+1, 2ub; one illegal character at first/middle/last position per alphabet; only values the generated Rust type can hold (Injector->Extractor identity). Non-extensible => Err(ValueNotInRange|SizeNotInRange|InvalidString|InvalidChoiceIndex), Ok is a violation (replay says what the bits decode to); extensible => Ok, round trip, bits == R-PER. CHOICE/ENUMERATED indices through hand-written adversarial descriptor types. distinct = distinct (type, violating value, violated constraint)".to_string(),
+        "C04" => "every zoo type x inputs: 1/4 random byte strings (0..64 octets, sparse/dense, declared length in {0,1,7,8,8n-1,8n,random}) and 3/4 valid encodings of boundary values with 1..3 faults from {truncate, bit flip, insert/delete octet, length-determinant patterns 7F/BFFF/C4/FF/C1/8000.. at early positions, garbage behind the declared end, unaligned runs of ones/zeros, splice, shift by 1..7 bits}; UperReader<SpyBits>::read::<T> under the panic journal, the counting allocator (largest request and peak live <= 64 MiB + 4096 x input octets) and a forked child with watchdog and RLIMIT_AS (abort, hang); Ok => no read ended beyond the declared length and pos <= declared length; after every outcome bits_remaining()/pos()/len()/remaining() are called: no panic and pos + remaining == len; the same inputs (protobuf encodings with faults, whole octets) through ProtobufReader; the DER reader's number/boolean/raw primitives on all inputs of <= 2 octets and random longer ones. distinct = distinct (type, outcome kind, bits consumed)".to_string(),
+        "C19" => "every zoo type x (valid encodings, fault inputs as in C04): outcome (Ok + hash of the Debug rendering of the value | Err + Debug of the ErrorKind | panic signature) and bits consumed, recorded by two builds of the same zoo (default features / descriptive-deserialize-errors) into tables that the orchestrator compares line by line. distinct = distinct (type, outcome, consumed)".to_string(),
         other => format!("zoo monitor {}", other),
     }
 }
@@ -1242,6 +1774,19 @@ pub fn finish(ctx: &mut ZooCtx) {
             let n = ctx.rep.hist.get("violated").and_then(|h| h.get(cell)).copied().unwrap_or(0);
             ctx.rep.floor.insert(format!("violated:{}", cell), n);
         }
+    }
+    if ctx.prop == "C04" {
+        if ctx.rep.shard == 0 {
+            let (seed, tier) = (ctx.seed, ctx.tier.clone());
+            c04_der(&mut ctx.rep, seed, &tier);
+        }
+        let h = ctx.rep.hist.get("outcomes").cloned().unwrap_or_default();
+        let total: u64 = h.values().sum();
+        let ok = h.get("Ok").copied().unwrap_or(0);
+        // a workload that only ever sees EndOfStream says little: at least 1 % of the inputs must decode
+        ctx.rep.floor.insert("uper:share-of-inputs-decoding-ok>=1%".into(), if total > 0 && ok * 100 >= total { ok } else { 0 });
+        let hp = ctx.rep.hist.get("outcomes-protobuf").cloned().unwrap_or_default();
+        ctx.rep.floor.insert("protobuf:inputs".into(), hp.values().sum());
     }
     if ctx.prop == "C02" {
         for cell in C02_FLOOR {
